@@ -40,6 +40,13 @@ BIN=$VERIF/bin/vcheck-$FLAVOUR
   "$VERIF_GO" build -tags verif $RACEFLAG -o "$BIN.$$" ./cmd/vcheck > "$SCRATCH/build.log" 2>&1
   rc=$?
   if [ $rc -ne 0 ]; then
+    # seen rarely right after files of the repository changed while another build was running: retry once
+    cp "$SCRATCH/build.log" "$VERIF/bin/last-failed-build.log" 2>/dev/null
+    sleep 2
+    "$VERIF_GO" build -tags verif $RACEFLAG -o "$BIN.$$" ./cmd/vcheck > "$SCRATCH/build.log" 2>&1
+    rc=$?
+  fi
+  if [ $rc -ne 0 ]; then
     cat "$SCRATCH/build.log"
     echo "HARNESS-ERROR property=$ID build of harness against $REPO failed"
     rm -f "$BIN.$$"
